@@ -1213,7 +1213,7 @@ func (st *Runtime) evalPipeCallExpression(baseExpr reflect.Value, args CallArgs,
 		return reflect.Value{}, errors.New("base of call expression is invalid value")
 	}
 	if funcType.AssignableTo(baseExpr.Type()) {
-		return baseExpr.Interface().(Func)(Arguments{runtime: st, args: args, pipedVal: pipedArg}), nil
+		return callFunc(baseExpr.Interface().(Func), Arguments{runtime: st, args: args, pipedVal: pipedArg})
 	}
 
 	argValues, err := st.evaluateArgs(baseExpr.Type(), args, pipedArg)
@@ -1227,6 +1227,22 @@ func (st *Runtime) evalPipeCallExpression(baseExpr reflect.Value, args CallArgs,
 	}
 
 	return returns[0], nil
+}
+
+// callFunc calls fn and returns an error raised with Arguments.Panicf as an
+// error value, so that the caller reports it with the position of the call.
+// Any other panic (including errors a user function panics with) passes through.
+func callFunc(fn Func, a Arguments) (ret reflect.Value, err error) {
+	defer func() {
+		if r := recover(); r != nil {
+			ce, ok := r.(*callError)
+			if !ok {
+				panic(r)
+			}
+			err = ce.err
+		}
+	}()
+	return fn(a), nil
 }
 
 func (st *Runtime) evalCommandExpression(node *CommandNode) (reflect.Value, bool) {
